@@ -25,7 +25,7 @@ FILES = {
     "cocoasm/virtualfiles/source_file.py": ["C19", "C13", "C11"],
     "cocoasm/virtualfiles/binary.py": ["C11", "C16", "C10"],
     "cocoasm/virtualfiles/coco_file.py": ["C06", "C07", "C16"],
-    "assembler.py": ["C11", "C13", "C10"],
+    "assembler.py": ["C13", "C11", "C10"],
     "file_util.py": ["C16", "C10", "C09"],
 }
 CMP = {ast.Lt: ast.LtE, ast.LtE: ast.Lt, ast.Gt: ast.GtE, ast.GtE: ast.Gt, ast.Eq: ast.NotEq, ast.NotEq: ast.Eq, ast.In: ast.NotIn, ast.NotIn: ast.In}
@@ -149,7 +149,7 @@ def run(J, maxn, tests_only=False, max_checks=99):
     q = queue.Queue()
     for c in data["cands"][:maxn]:
         if c["id"] not in results or (not tests_only and results[c["id"]]["status"] == "passes-repo-tests") or \
-                (not tests_only and results[c["id"]]["status"] == "survived" and any(results[c["id"]].get("checks", {}).get(p, 2) == 2 for p in FILES[c["file"]][:max_checks])):
+                (not tests_only and results[c["id"]]["status"] in ("survived", "refused-exit2") and any(results[c["id"]].get("checks", {}).get(p, 2) == 2 for p in FILES[c["file"]][:max_checks])):
             q.put(c)
     lock = threading.Lock()
 
@@ -192,6 +192,8 @@ def run(J, maxn, tests_only=False, max_checks=99):
                                 break
                             if rr.returncode == 0:
                                 os.remove(log)
+                if r["status"] == "survived" and any(v == 2 for v in r.get("checks", {}).values()):
+                    r["status"] = "refused-exit2"          # no check passed it off as fine: at least one stopped with a machinery failure (never a pass)
                 with lock:
                     if r["status"] == "survived" and tests_only:
                         r["status"] = "passes-repo-tests"
